@@ -570,6 +570,12 @@ func (f *Frame) invoke(st *State, ins ssa.Instruction, c *ssa.CallCommon) Value 
 		return m(f, st, recv, args)
 	}
 	sig := c.Method.Type().(*types.Signature)
+	if impls := x.closedImpls(c); impls != nil {
+		return x.invokeClosed(f, st, ins, c, impls, recv, args)
+	}
+	if sp := x.ifaceSpecFor(c.Method); sp != nil {
+		return x.invokeByContract(f, st, ins, c.Method, sp, recv, args)
+	}
 	x.note("interface method call modelled as opaque deterministic call: " + name)
 	fn := B.UF("method_"+sanitize(name), RefS, recv.Fields[0].(*smt.Term))
 	all := append([]Value{x.scalar(recv.Fields[1], nil)}, args...)
@@ -580,6 +586,229 @@ func (f *Frame) invoke(st *State, ins ssa.Instruction, c *ssa.CallCommon) Value 
 	}
 	nsig := types.NewSignatureType(nil, nil, nil, types.NewTuple(vars...), sig.Results(), false)
 	return x.opaqueCall(f, st, ins, fn, all, nsig)
+}
+
+// closedImpls: when the static interface type of an invoke is declared "closed" in its package's
+// contract file, the concrete types of the module that implement it, with the method each one runs.
+type implCase struct {
+	typ types.Type // dynamic type (T or *T)
+	fn  *ssa.Function
+}
+
+func (x *Exec) closedImpls(c *ssa.CallCommon) []implCase {
+	n, ok := c.Value.Type().(*types.Named)
+	if !ok || n.Obj().Pkg() == nil {
+		return nil
+	}
+	db := x.Specs[n.Obj().Pkg().Path()]
+	if db == nil || !x.usable(db) {
+		return nil
+	}
+	closed := false
+	for _, cn := range db.Closed {
+		if cn == n.Obj().Name() {
+			closed = true
+		}
+	}
+	if !closed {
+		return nil
+	}
+	key := n.Obj().Pkg().Path() + "." + n.Obj().Name() + "." + c.Method.Name()
+	if x.implCache == nil {
+		x.implCache = map[string][]implCase{}
+	}
+	if r, ok := x.implCache[key]; ok {
+		return r
+	}
+	iface := n.Underlying().(*types.Interface)
+	var out []implCase
+	for _, pkg := range x.Prog.AllPackages() {
+		if !strings.HasPrefix(pkg.Pkg.Path(), modulePath) {
+			continue
+		}
+		names := make([]string, 0, len(pkg.Members))
+		for name := range pkg.Members {
+			names = append(names, name)
+		}
+		sortStrings(names)
+		for _, name := range names {
+			tm, ok := pkg.Members[name].(*ssa.Type)
+			if !ok {
+				continue
+			}
+			t := tm.Type()
+			if _, isIface := t.Underlying().(*types.Interface); isIface {
+				continue
+			}
+			for _, dt := range []types.Type{t, types.NewPointer(t)} {
+				if !types.Implements(dt, iface) {
+					continue
+				}
+				sel := x.Prog.MethodSets.MethodSet(dt).Lookup(c.Method.Pkg(), c.Method.Name())
+				if sel == nil {
+					continue
+				}
+				if fn := x.Prog.MethodValue(sel); fn != nil {
+					out = append(out, implCase{dt, fn})
+				}
+				break // a value of type *T is not considered when T itself implements the interface
+			}
+		}
+	}
+	x.implCache[key] = out
+	return out
+}
+
+// invokeClosed: a method call on a value of a closed interface type, resolved by case split over
+// the implementing types: each case runs (inlines, or uses the contract of) the method of that type
+// on a copy of the state; the copies are merged. A nil interface is a panic (checked).
+func (x *Exec) invokeClosed(f *Frame, st *State, ins ssa.Instruction, c *ssa.CallCommon, impls []implCase, recv *Struct, args []Value) Value {
+	B := x.B
+	typ := recv.Fields[0].(*smt.Term)
+	nonnil := B.Neq(typ, B.IntC(0))
+	if f.panicHook != nil {
+		ps := st.clone()
+		ps.PC = B.And(st.PC, B.Not(nonnil))
+		if !ps.PC.IsFalse() {
+			f.panicHook(ps, "method call on a nil interface", ins)
+		}
+	}
+	f.boundsCheck(st, ins, "nil-interface-call", nonnil)
+	x.note("closed world: a value of " + c.Value.Type().String() + " has one of the types of the module that implement it")
+	type outc struct {
+		cond *smt.Term
+		st   *State
+		v    Value
+	}
+	var outs []outc
+	for _, ic := range impls {
+		cond := B.Eq(typ, x.typeID(ic.typ))
+		if cond.IsFalse() {
+			continue
+		}
+		sT := st.clone()
+		sT.PC = B.And(st.PC, cond)
+		if sT.PC.IsFalse() {
+			continue
+		}
+		rv := x.unbox(recv.Fields[1], ic.typ)
+		v, ok := x.callStatic(f, sT, ins, ic.fn, nil, append([]Value{rv}, args...))
+		if !ok || sT.Dead || sT.PC.IsFalse() {
+			continue
+		}
+		outs = append(outs, outc{cond, sT, v})
+		if cond.IsTrue() {
+			break
+		}
+	}
+	if len(outs) == 0 {
+		st.PC = B.False()
+		st.Dead = true
+		return x.zeroValue(c.Signature().Results().At(0).Type())
+	}
+	var sts []*State
+	for _, o := range outs {
+		sts = append(sts, o.st)
+	}
+	merged := x.mergeStates(sts)
+	*st = *merged
+	if c.Signature().Results().Len() == 0 {
+		return &Struct{}
+	}
+	res := outs[len(outs)-1].v
+	for i := len(outs) - 2; i >= 0; i-- {
+		res = x.ite(outs[i].cond, outs[i].v, res)
+	}
+	return res
+}
+
+// ifaceSpecFor: the assumed contract of an interface method, written as func (I).m in the contract
+// file of the package that declares the interface I.
+func (x *Exec) ifaceSpecFor(m *types.Func) *spec.FuncSpec {
+	sig := m.Type().(*types.Signature)
+	if sig.Recv() == nil || m.Pkg() == nil {
+		return nil
+	}
+	n, ok := sig.Recv().Type().(*types.Named)
+	if !ok {
+		return nil
+	}
+	db := x.Specs[m.Pkg().Path()]
+	if db == nil || !x.usable(db) {
+		return nil
+	}
+	return db.Funcs["("+n.Obj().Name()+")."+m.Name()]
+}
+
+// invokeByContract: a call of an interface method that has an assumed contract. The receiver must
+// be a non-nil interface (checked); requires are obligations of the caller, ensures are assumed.
+// In the clauses the result goes by the name given in the header, the receiver by "recv".
+func (x *Exec) invokeByContract(f *Frame, st *State, ins ssa.Instruction, m *types.Func, sp *spec.FuncSpec, recv *Struct, args []Value) Value {
+	B := x.B
+	sig := m.Type().(*types.Signature)
+	name := "(" + sig.Recv().Type().(*types.Named).Obj().Name() + ")." + m.Name()
+	nonnil := B.Neq(recv.Fields[0].(*smt.Term), B.IntC(0))
+	if f.panicHook != nil {
+		ps := st.clone()
+		ps.PC = B.And(st.PC, B.Not(nonnil))
+		if !ps.PC.IsFalse() {
+			f.panicHook(ps, "method call on a nil interface", ins)
+		}
+	}
+	f.boundsCheck(st, ins, "nil-interface-call", nonnil)
+	saved := map[string]TV{}
+	had := map[string]bool{}
+	bind := func(n string, tv TV) {
+		if old, ok := f.overTV[n]; ok {
+			saved[n], had[n] = old, true
+		} else if _, seen := had[n]; !seen {
+			had[n] = false
+		}
+		f.overTV[n] = tv
+	}
+	defer func() {
+		for n, h := range had {
+			if h {
+				f.overTV[n] = saved[n]
+			} else {
+				delete(f.overTV, n)
+			}
+		}
+	}()
+	bind("recv", TV{recv, sig.Recv().Type()})
+	for i := 0; i < sig.Params().Len() && i < len(args); i++ {
+		if pn := sig.Params().At(i).Name(); pn != "" && pn != "_" {
+			bind(pn, TV{args[i], sig.Params().At(i).Type()})
+		}
+	}
+	pre := st.clone()
+	for _, c := range sp.Of("requires") {
+		x.oblige("requires@"+name, c.Text, f.where(ins), st, f.evalBool(c.Expr, st, pre))
+	}
+	if len(sp.Of("modifies")) > 0 {
+		unsupported("modifies clause on the interface method contract %s", name)
+	}
+	if f.panicHook != nil && !sp.Flags["never_panics"] {
+		f.panicHook(st.clone(), name+" may panic", ins)
+	}
+	var rs []Value
+	for i := 0; i < sig.Results().Len(); i++ {
+		r := x.freshValue(fmt.Sprintf("ret%d_%s", i, m.Name()), sig.Results().At(i).Type())
+		rs = append(rs, r)
+		if i < len(sp.Results) {
+			bind(sp.Results[i], TV{r, sig.Results().At(i).Type()})
+		}
+	}
+	x.NoObl++
+	for _, c := range sp.Of("ensures") {
+		st.PC = B.And(st.PC, f.evalBool(c.Expr, st, pre))
+	}
+	x.NoObl--
+	for _, r := range rs {
+		x.assumeWF(st, r)
+	}
+	x.note("trusted contract of an interface method: " + name)
+	return resultValue(rs)
 }
 
 func sanitize(s string) string {
